@@ -253,6 +253,27 @@ def verify_guard(f, s, entry):
                     return False, "offset loop calls %s, which is outside the reviewed set" % c.name
         return True, "character predicates %s accept one-byte characters only" % \
             [p.rsplit("::", 1)[-1] for p in g["ascii_only_fns"]]
+    if g.get("recorded_in_one_loop"):
+        # the indices consumed here were recorded by Vec::push into a list that is consumed with
+        # pop(): valid only if all pushes happen in ONE loop over windows().enumerate() (so the
+        # list is sorted by index and pop() yields descending indices)
+        from rules.progress import receiver_local
+        pops = [c for c in f.calls_matching(r"Vec::<T, A>::pop$")]
+        recs = {receiver_local(f, c)[1] for c in pops}
+        pushes = [c for c in f.calls_matching(r"Vec::<T, A>::push$")
+                  if receiver_local(f, c)[1] in recs]
+        if not pushes:
+            return False, "no recording push found for the popped index list"
+        sccs = [set(x) for x in f.sccs()]
+        homes = set()
+        for c in pushes:
+            home = [i for i, sc in enumerate(sccs) if c.bb in sc]
+            homes.add(home[0] if home else -1 - c.bb)
+        if len(homes) != 1:
+            return False, ("the index list is filled by %d separate loops: it is no longer sorted "
+                           "by index, so replacing from the back can hit shifted positions"
+                           % len(homes))
+        return True, "all %d recording pushes are in one loop" % len(pushes)
     if "backslice" in g:
         idx, needle = g["backslice"]
         t = s["term"]
